@@ -453,12 +453,31 @@ func ruleGenSafe(w *World, r *Report, gen, helper, execOp *ssa.Function) {
 		return
 	}
 	// the safe flag
+	// found structurally (not by name): a bool phi with a constant-false edge that gates, as a true fact,
+	// the indexing of an operator list containing a division operator
 	var safePhi *ssa.Phi
-	EachInstr(helper, func(in ssa.Instruction) {
-		if p, ok := in.(*ssa.Phi); ok && p.Comment == "safe" {
-			safePhi = p
+	for _, s := range sels {
+		hasDiv := false
+		for _, op := range s.list {
+			if isDivision(op) {
+				hasDiv = true
+			}
 		}
-	})
+		if !hasDiv || safePhi != nil {
+			continue
+		}
+		for _, f := range factsAt(s.blk) {
+			p, ok := f.Cond.(*ssa.Phi)
+			if !ok || !f.Truth {
+				continue
+			}
+			for _, e := range p.Edges {
+				if b, okb := constBool(e); okb && !b {
+					safePhi = p
+				}
+			}
+		}
+	}
 	for _, s := range sels {
 		var missing []string
 		hasDiv := false
